@@ -224,6 +224,55 @@ def names_rules(ctx):
     return fi
 
 
+def index_space_rule(ctx, ini):
+    """INDEX-SPACE: a task value a knife uses to index the *species slab* (the array cut as
+    arr[..., sp_start:sp_end]) counts species from the first species — it must be produced as a Cantera species index;
+    one it uses on the last axis of the whole FAB counts fields of the Header — it must come from the field table.
+    The two numberings differ by sp_start (and by whatever fields precede the species)."""
+    prog = ctx.prog
+    uses = {}       # task key -> {"species", "field"}
+    for k in KNIVES:
+        w = prog.func(CH, k, P)
+        slabs, full = set(), set()
+        for n in walk_no_nested(w.node):
+            if isinstance(n, ast.Assign) and isinstance(n.targets[0], ast.Name):
+                t = norm(n.value)
+                if "args['sp_start']:args['sp_end']" in t:
+                    slabs.add(n.targets[0].id)
+                elif ".reshape(" in t and "order='F'" in t:
+                    full.add(n.targets[0].id)
+        for n in walk_no_nested(w.node):
+            if isinstance(n, ast.Subscript) and isinstance(n.value, ast.Name) and isinstance(n.slice, ast.Tuple) and n.slice.elts:
+                last = n.slice.elts[-1]
+                if isinstance(last, ast.Subscript) and norm(last.value) == "args" and isinstance(last.slice, ast.Constant):
+                    key = last.slice.value
+                    if n.value.id in slabs:
+                        uses.setdefault(key, set()).add("species")
+                    elif n.value.id in full:
+                        uses.setdefault(key, set()).add("field")
+    prod = {}
+    for n in walk_no_nested(ini.node):
+        if isinstance(n, ast.Assign) and isinstance(n.targets[0], ast.Attribute) and norm(n.targets[0].value) == "self" and \
+                not (isinstance(n.value, ast.Constant) and n.value.value is None):
+            t = norm(n.value)
+            if isinstance(n.value, (ast.List, ast.Tuple)) and not n.value.elts:
+                continue        # an empty selection has no numbering
+            kind = "species" if "species_index(" in t else "field" if "self.fields[" in t else None
+            prod.setdefault(n.targets[0].attr, []).append((kind, t, n))
+    n_inst = 0
+    for key, spaces in sorted(uses.items()):
+        for kind, t, node in prod.get(key, []):
+            n_inst += 1
+            want = sorted(spaces)[0] if len(spaces) == 1 else None
+            ctx.decide(kind is not None and kind == want, kind is not None and want is not None, f"{P}.INDEX-SPACE", ini.site,
+                       f"task value `{key}` indexes the {want} numbering in the knives and is produced in it",
+                       f"`self.{key} = {t}` is a {kind} index, but the knives use args['{key}'] on the "
+                       f"{'species slab arr[..., sp_start:sp_end]' if want == 'species' else 'whole FAB'} — a {want} index: "
+                       f"the two numberings differ by the fields that precede the species block", key=key,
+                       where=loc(ini, node))
+    ctx.floor("index-space pairings (task value used as an array index <-> its producer)", n_inst, 2)
+
+
 def run(ctx):
     prog = ctx.prog
     for k, (rank, sel) in KNIVES.items():
@@ -260,6 +309,7 @@ def run(ctx):
             "bfpath": pl.var, "ids_keep": "self.ids_keep", "field_indexes": "self.fields", "recipe": "self.recipe",
             "sp_indexes": "self.sp_indexes", "rx_indexes": "self.rx_indexes", "id_temp": "self.id_temp",
             "sp_start": "self.sp_start", "sp_end": "self.sp_end", "idx_O2": "self.idx_O2"})
+        index_space_rule(ctx, ini)
         nb = None
         for n in ast.walk(pl.loop):
             if isinstance(n, ast.Assign) and norm(n.targets[0]) == "newbfpath":
